@@ -826,6 +826,22 @@ std::string handle_impl(std::vector<std::string> const &t)
       return done(head);
     }
 #endif
+    if (cmd == "setmv")
+    {
+      // value(T &&) with an xvalue that refers to a value inside the forest (possibly the receiver's own)
+      a.value(std::move(b.value()));
+      return done(head);
+    }
+    if (cmd == "pushbmv" || cmd == "pushfmv")
+    {
+      if (big)
+        return "skip:big";
+      if (cmd == "pushbmv")
+        a.push_back(std::move(b.value()));
+      else
+        a.push_front(std::move(b.value()));
+      return done(head);
+    }
     if (cmd == "cpos")
       return "q a=" + sa + " b=" + sb + " cpos=" + cpos_str(a, b);
     if (cmd == "eq")
